@@ -241,9 +241,9 @@ def classified : List Entry := [
     .cannotFail "inside the else branch of `if value == MAX_VALUE (15)`"⟩,
   -- app/parse/traits.rs
   ⟨14070574708522644059, "app/parse/traits.rs|u8::next|arith|self + 1|0",
-    .notPeerReachable "peer path: outstation PrefixWriter starts at one() and calls next() once per further echoed item of ONE request header, whose count field is the same width (<= 255 / 65535 items): no overflow; the overflow exists only through the master API CommandBuilder with 256 commands (finding D17 of C09)"⟩,
+    .notPeerReachable "only callers: one() and the outstation PrefixWriter, which starts at one() and calls next() once per further echoed item of ONE request header, whose count field is the same width (<= 255 / 65535 items): no overflow; the master-side writer HeaderWriter::write_prefixed_items counts with checked_next() since the repair of D17 (C09) and no longer reaches this site"⟩,
   ⟨18046147020626651638, "app/parse/traits.rs|u16::next|arith|self + 1|0",
-    .notPeerReachable "peer path: outstation PrefixWriter starts at one() and calls next() once per further echoed item of ONE request header, whose count field is the same width (<= 255 / 65535 items): no overflow; the overflow exists only through the master API CommandBuilder with 256 commands (finding D17 of C09)"⟩,
+    .notPeerReachable "only callers: one() and the outstation PrefixWriter, which starts at one() and calls next() once per further echoed item of ONE request header, whose count field is the same width (<= 255 / 65535 items): no overflow; the master-side writer HeaderWriter::write_prefixed_items counts with checked_next() since the repair of D17 (C09) and no longer reaches this site"⟩,
   -- app/parse/count.rs
   ⟨10229195354683010637, "app/parse/count.rs|CountSequence::parse|arith|let num_bytes = T::SIZE as usize * count as usize;|0",
     .cannotFail "SIZE is a u8 and count a u16: product < 2^24 in usize"⟩,
